@@ -638,9 +638,11 @@ pub fn op_decr(args: &[&str]) -> String {
     let (stream, digs) = build_stream(args[5], args[6]);
     let fill: u8 = args[7].parse().unwrap();
     let root = blake3::hash(&data);
-    let tree = BaoTree::new(data.len() as u64, bs);
+    // optional 9th argument `c<size>`: the receiver's outboard claims this size (C16 through the drivers)
+    let claimed: u64 = args.get(8).and_then(|a| a.strip_prefix('c')).map(|c| c.parse().unwrap()).unwrap_or(data.len() as u64);
+    let tree = BaoTree::new(claimed, bs);
     let ob0 = vec![0xAAu8; tree.outboard_size() as usize];
-    let mut target = vec![fill; data.len()];
+    let mut target = vec![fill; data.len().max(claimed.min(1 << 20) as usize)];
     let mut rd: &[u8] = &stream;
     let (r, ob) = match fl {
         "sync" => with_sync_store!(kind, root, tree, ob0, |o| sync::decode_ranges(&mut rd, &ranges, &mut target, &mut o)),
